@@ -577,12 +577,14 @@ public:
         PGMIndex<K, Epsilon, 0, Floating>::build(first, last, Epsilon, 0, tmp, offsets);
 
         segments.reserve(tmp.size());
+        size_t ef_count = 0; // segments keyed by the sentinel are never the predecessor of a valid key
         for (auto &x: tmp) {
             segments.push_back(x);
+            ef_count += x.key != (PGMIndex<K, Epsilon, 0, Floating>::sentinel);
             x.key -= first_key;
         }
 
-        ef = decltype(ef)(tmp.begin(), std::prev(tmp.end()));
+        ef = decltype(ef)(tmp.begin(), tmp.begin() + ef_count);
     }
 
     /**
